@@ -22,5 +22,6 @@ CONSTANTS
   EncodeAtEnqueue = FALSE
   BugZeroCostHeld = TRUE
   SplitOnlyAtEnqueue = FALSE
+  DropOnClose = FALSE
 INVARIANTS NoEligibleQueued
 CHECK_DEADLOCK FALSE
